@@ -143,6 +143,11 @@ def gen_spec(r):
             else:
                 e = ("func", "Upper", [("col", t.name, "s", t)])
             sets.append((c, e, r.random() < 0.5))
+        if len(sets) >= 1 and r.random() < 0.15:
+            # the same column assigned again by a later set() call (a shared base statement refined later): every call
+            # adds its pair, in call order — the engine's rule for repeated assignments then applies to the reference alike
+            c0 = sets[0][0]
+            sets.append((c0, value(r), r.random() < 0.5))
         spec["sets"] = sets
     return spec
 
